@@ -27,6 +27,7 @@ type c16Prog struct {
 func genC16(t *rapid.T) c16Prog {
 	cfg := genCfg(false)
 	cfg.MaxOps = ev.Scale(24, 60)
+	cfg.Orders = []int{0, 0, 1, 1, 2} // also FirstWriteWins: "the linearisation the unbounded merge would have produced" is then taken from the twin
 	w := sim.Gen(t, cfg)
 	return c16Prog{
 		World: w,
@@ -79,6 +80,10 @@ func runC16(tb ev.TB, p c16Prog) ev.Result {
 		tb.Fatalf("harness: twin: %v", err)
 	}
 
+	if w.Order == world.OrderFWW {
+		// not a causal ordering: the reference is the linearisation the unbounded merge (of the twin) produces
+		full = world.Hashes(twin.Values())
+	}
 	ret, err := dst.Log.Join(src.Log, bound) // a panic here is a violation (rapid reports it)
 	if err != nil {
 		tb.Fatalf("bounded merge (n=%d, total=%d) returned error: %v", bound, total, err)
@@ -106,7 +111,7 @@ func runC16(tb ev.TB, p c16Prog) ev.Result {
 		if !world.EqualStrings(vals, exp) {
 			tb.Fatalf("bounded merge n=%d of total %d: values are not the last %d of the full linearisation:\n got  %v\n want %v", bound, total, want, world.Shorts(vals), world.Shorts(exp))
 		}
-	} else {
+	} else if w.Order != world.OrderFWW {
 		// up to ties: nothing excluded is strictly newer than something included
 		for _, x := range full {
 			if ents.Has(x) {
